@@ -265,8 +265,7 @@ def add_(x, y):
 @binaryop(ast.Sub, [int, Decimal], Decimal)
 @binaryop(ast.Sub, [int, int], int)
 @binaryop(ast.Sub, [datetime.date, relativedelta], datetime.date)
-@binaryop(ast.Sub, [relativedelta, datetime.date], datetime.date)
-@binaryop(ast.Sub, [relativedelta, relativedelta], datetime.date)
+@binaryop(ast.Sub, [relativedelta, relativedelta], relativedelta)
 def sub_(x, y):
     return x - y
 
